@@ -457,6 +457,7 @@ func init() {
 	props["C14"] = func(c *ctx) {
 		var bigFirst int // when > 0: an unrelated frame with that many data bytes precedes the reply
 		var again []byte // when set: the same query is made once more (acknowledge payload `again`) before the first result is looked at
+		var cutCk bool   // when set: the reply arrives in two reads, the second one being its checksum byte alone
 		query := func(name string, ack xsens.MessageIdentifier, payload []byte) {
 			stream := []byte(xsens.NewMessage(xsens.MessageIdentifierWakeup, nil))
 			if bigFirst > 0 {
@@ -466,7 +467,11 @@ func init() {
 			if again != nil {
 				stream = append(stream, xsens.NewMessage(ack, again)...)
 			}
-			port := &scriptedPort{r: &chunkReader{data: stream, final: io.EOF}}
+			var sched []int
+			if cutCk && again == nil {
+				sched = []int{len(stream) - 1, 1}
+			}
+			port := &scriptedPort{r: &chunkReader{data: stream, sched: sched, final: io.EOF}}
 			cl := xsens.NewClient(port)
 			ctx := context.Background()
 			r := "RPan"
@@ -477,100 +482,108 @@ func init() {
 				}
 				return "(ROk [" + strings.Join(parts, ";") + "]%Z)"
 			}
-			protect(func() {
-				switch name {
-				case "GetDeviceID":
-					v, err := cl.GetDeviceID(ctx)
-					if err != nil {
-						r = "RErr"
-						if v != nil {
-							r = "RPan" // a partially filled value returned with an error
-						}
-					} else {
-						r = zlist([]int64{int64(*v)})
-					}
-				case "GetHWVersion":
-					v, err := cl.GetHWVersion(ctx)
-					if err != nil {
-						r = "RErr"
-						if v != nil {
-							r = "RPan"
-						}
-					} else {
-						var a, b int64 = -1, -1
-						if _, e := fmt.Sscanf(string(*v), "%d.%d", &a, &b); e != nil || fmt.Sprintf("%d.%d", a, b) != string(*v) {
-							a, b = -1, -1
-						}
-						r = zlist([]int64{a, b})
-					}
-				case "GetProductCode":
-					v, err := cl.GetProductCode(ctx)
-					if err != nil {
-						r = "RErr"
-					} else {
-						var xs []int64
-						for _, ch := range []byte(*v) {
-							xs = append(xs, int64(ch))
-						}
-						r = zlist(xs)
-					}
-				case "GetOutputConfiguration":
-					v, err := cl.GetOutputConfiguration(ctx)
-					if again != nil && err == nil {
-						_, _ = cl.GetOutputConfiguration(ctx)
-					}
-					if err != nil {
-						r = "RErr"
-						if v != nil {
-							r = "RPan"
-						}
-					} else {
-						var xs []int64
-						for _, s := range v {
-							xs = append(xs, int64(s.DataType), int64(s.CoordinateSystem), int64(s.Precision), int64(s.OutputFrequency))
-						}
-						r = zlist(xs)
-					}
-				case "GetCANOutputConfiguration":
-					v, err := cl.GetCANOutputConfiguration(ctx)
-					if again != nil && err == nil {
-						_, _ = cl.GetCANOutputConfiguration(ctx)
-					}
-					if err != nil {
-						r = "RErr"
-						if v != nil {
-							r = "RPan"
-						}
-					} else {
-						var xs []int64
-						for _, s := range v {
-							fl := int64(0)
-							if s.CANIDLengthFlag {
-								fl = 1
+			res := "RPan"
+			returned := guarded(func() {
+				protect(func() {
+					switch name {
+					case "GetDeviceID":
+						v, err := cl.GetDeviceID(ctx)
+						if err != nil {
+							r = "RErr"
+							if v != nil {
+								r = "RPan" // a partially filled value returned with an error
 							}
-							xs = append(xs, int64(s.CANDataIdentifier), fl, int64(s.IDMask), int64(s.OutputFrequency))
+						} else {
+							r = zlist([]int64{int64(*v)})
 						}
-						r = zlist(xs)
-					}
-				case "GetCANConfiguration":
-					v, err := cl.GetCANConfiguration(ctx)
-					if again != nil && err == nil {
-						_, _ = cl.GetCANConfiguration(ctx)
-					}
-					if err != nil {
-						r = "RErr"
-						if v != nil {
-							r = "RPan"
+					case "GetHWVersion":
+						v, err := cl.GetHWVersion(ctx)
+						if err != nil {
+							r = "RErr"
+							if v != nil {
+								r = "RPan"
+							}
+						} else {
+							var a, b int64 = -1, -1
+							if _, e := fmt.Sscanf(string(*v), "%d.%d", &a, &b); e != nil || fmt.Sprintf("%d.%d", a, b) != string(*v) {
+								a, b = -1, -1
+							}
+							r = zlist([]int64{a, b})
 						}
-					} else {
-						e := int64(0)
-						if v.Enable {
-							e = 1
+					case "GetProductCode":
+						v, err := cl.GetProductCode(ctx)
+						if err != nil {
+							r = "RErr"
+						} else {
+							var xs []int64
+							for _, ch := range []byte(*v) {
+								xs = append(xs, int64(ch))
+							}
+							r = zlist(xs)
 						}
-						r = zlist([]int64{e, int64(v.BaudRate)})
+					case "GetOutputConfiguration":
+						v, err := cl.GetOutputConfiguration(ctx)
+						if again != nil && err == nil {
+							_, _ = cl.GetOutputConfiguration(ctx)
+						}
+						if err != nil {
+							r = "RErr"
+							if v != nil {
+								r = "RPan"
+							}
+						} else {
+							var xs []int64
+							for _, s := range v {
+								xs = append(xs, int64(s.DataType), int64(s.CoordinateSystem), int64(s.Precision), int64(s.OutputFrequency))
+							}
+							r = zlist(xs)
+						}
+					case "GetCANOutputConfiguration":
+						v, err := cl.GetCANOutputConfiguration(ctx)
+						if again != nil && err == nil {
+							_, _ = cl.GetCANOutputConfiguration(ctx)
+						}
+						if err != nil {
+							r = "RErr"
+							if v != nil {
+								r = "RPan"
+							}
+						} else {
+							var xs []int64
+							for _, s := range v {
+								fl := int64(0)
+								if s.CANIDLengthFlag {
+									fl = 1
+								}
+								xs = append(xs, int64(s.CANDataIdentifier), fl, int64(s.IDMask), int64(s.OutputFrequency))
+							}
+							r = zlist(xs)
+						}
+					case "GetCANConfiguration":
+						v, err := cl.GetCANConfiguration(ctx)
+						if again != nil && err == nil {
+							_, _ = cl.GetCANConfiguration(ctx)
+						}
+						if err != nil {
+							r = "RErr"
+							if v != nil {
+								r = "RPan"
+							}
+						} else {
+							e := int64(0)
+							if v.Enable {
+								e = 1
+							}
+							r = zlist([]int64{e, int64(v.BaudRate)})
+						}
 					}
-				}
+				})
+				res = r
 			})
+			if !returned {
+				c.count("query-did-not-return")
+			}
+			r = res // a call that does not return is reported like a panic
 			c.emit("query", tup("\""+name+"\"", nlist(payload), r))
 		}
 		ascii := func(n int) []byte {
@@ -621,6 +634,24 @@ func init() {
 				query(q.name, q.ack, c.payload(256))
 			}
 		}
+		// product codes padded with NUL bytes (a fixed-width field of a device that pads with zeros): kept, never a reason to
+		// hang; and every reply once more with its checksum byte arriving in a read of its own
+		for _, pc := range [][]byte{{0}, {0, 0, 0, 0}, []byte("MTi-G-710\x00"), []byte("MTi-G-710\x00\x00\x00"), []byte("MTi-30 \x00  "), []byte(" \x00MTi"), []byte("MTi\x00 \x00")} {
+			query("GetProductCode", xsens.MessageIdentifierProductCode, pc)
+		}
+		cutCk = true
+		for _, q := range qs {
+			for _, n := range []int{0, 1, 4, 8, 12, 16, 20, 254, 255, 256} {
+				if q.name == "GetProductCode" {
+					if n < 255 {
+						query(q.name, q.ack, ascii(n))
+					}
+				} else {
+					query(q.name, q.ack, c.payload(n))
+				}
+			}
+		}
+		cutCk = false
 		// the largest frames a device may send, in front of the reply
 		for _, q := range qs {
 			for _, big := range []int{2046, 2047, 2048} {
